@@ -32,7 +32,9 @@ Print Assumptions C15_drop_keeps_unread.
 Theorem C15_drop_frame : forall s,
   let s' := uf_drop s in
   u_tellg s' = u_tellg s /\ u_tellp s' = u_tellp s /\ u_fsz s' = u_fsz s /\ u_rd s' = u_rd s /\ u_gcount s' = u_gcount s /\
-  (u_data s' = u_data s \/ exists c, u_data s = c :: u_data s' /\ c_end c <= u_tellg s /\ c_end c <= u_tellp s /\ c_end c <= u_fsz s).
+  exists gone, u_data s = gone ++ u_data s' /\
+    Forall (fun c => c_end c <= u_tellg s /\ c_end c <= u_tellp s /\ c_end c <= u_fsz s) gone /\
+    match u_data s' with [] => True | c :: _ => u_tellg s < c_end c \/ u_tellp s < c_end c \/ u_fsz s < c_end c end.
 Proof. exact drop_frame. Qed.
 Print Assumptions C15_drop_frame.
 
